@@ -37,6 +37,16 @@ impl<In, Out> FnModel<In, Out> {
     { unimplemented!() }
 }
 
+
+/// a user callback whose *invocations* matter (tap): every call is recorded in order
+pub struct EffFn<In> { pub calls: Ghost<Seq<In>> }
+impl<In> EffFn<In> {
+    #[verifier::external_body]
+    pub fn call(&mut self, x: In)
+        ensures final(self).calls@ == old(self).calls@.push(x),
+    { unimplemented!() }
+}
+
 pub open spec fn ended<T>(d: Seq<Ev<T>>) -> bool { d.len() > 0 && !(d.last() is N) }
 
 pub open spec fn items_of<T>(s: Seq<T>) -> Seq<Ev<T>> { s.map_values(|x: T| Ev::N(x)) }
@@ -153,6 +163,60 @@ impl<T> SctlModel<T> {
             !final(self).sub@,
             final(self).ups@ =~= Set::<int>::empty(),
             final(self).quits@ == old(self).quits@,
+    { unimplemented!() }
+}
+
+
+/// Contract model of crate::observer::Observer as seen by a source (creation function) that emits into it (DESIGN A.1):
+///   out: events delivered to the subscriber's callbacks;  sub: is_subscribed();  quits: the subscriber unsubscribes itself from
+///   inside one of its callbacks during this run (re-entrancy prophecy); when false the subscriber is passive.
+/// Checked against the real Observer by the Kani K-refine obligations of C01/C05.
+pub struct ObsModel<T> {
+    pub out: Ghost<Seq<Ev<T>>>,
+    pub sub: Ghost<bool>,
+    pub quits: Ghost<bool>,
+}
+
+impl<T> ObsModel<T> {
+    pub open spec fn wf(&self) -> bool { self.sub@ ==> !ended(self.out@) }
+    pub open spec fn fresh(&self) -> bool { self.sub@ && self.out@ =~= Seq::<Ev<T>>::empty() }
+
+    #[verifier::external_body]
+    pub fn is_subscribed(&self) -> (r: bool)
+        ensures r == self.sub@,
+    { unimplemented!() }
+
+    #[verifier::external_body]
+    pub fn next(&mut self, x: T)
+        requires old(self).wf(),
+        ensures
+            final(self).wf(),
+            final(self).quits@ == old(self).quits@,
+            old(self).sub@ ==> final(self).out@ == old(self).out@.push(Ev::N(x)),
+            old(self).sub@ && !old(self).quits@ ==> final(self).sub@,
+            !old(self).sub@ ==> final(self).out@ == old(self).out@ && !final(self).sub@,
+    { unimplemented!() }
+
+    #[verifier::external_body]
+    pub fn error(&mut self, e: RxError)
+        requires old(self).wf(),
+        ensures
+            final(self).wf(),
+            final(self).quits@ == old(self).quits@,
+            old(self).sub@ ==> final(self).out@ == old(self).out@.push(Ev::E(e)),
+            !old(self).sub@ ==> final(self).out@ == old(self).out@,
+            !final(self).sub@,
+    { unimplemented!() }
+
+    #[verifier::external_body]
+    pub fn complete(&mut self)
+        requires old(self).wf(),
+        ensures
+            final(self).wf(),
+            final(self).quits@ == old(self).quits@,
+            old(self).sub@ ==> final(self).out@ == old(self).out@.push(Ev::C),
+            !old(self).sub@ ==> final(self).out@ == old(self).out@,
+            !final(self).sub@,
     { unimplemented!() }
 }
 
